@@ -1,6 +1,6 @@
 (** C01 - parsing is total: Ok or Err, never a panic, abort or hang (PARTIAL: "no stack exhaustion" is carried by the
     nesting counter of the parser model and measured on the real stack by the correspondence). *)
-From EE Require Import Chars OpTable Decimal Token Lexer Ast Parser Printer Api Utf8 LexerSpec LexerTiling ParserTotal ParserFuel ParserHeight.
+From EE Require Import Chars OpTable Decimal Token Lexer Ast Parser Printer Api Utf8 LexerSpec LexerTiling ParserTotal ParserFuel ParserMono ParserHeight.
 Open Scope N_scope.
 
 (* the tokenizer never panics and its explicit fuel (length + 1) always suffices: it terminates on every string *)
@@ -72,3 +72,10 @@ Example C01_example :
   api_parse tbl [43; 233] = Ok (AUnary [43] (ARef [233])) /\ api_parse tbl [40; 40] = Err.
 Proof. vm_compute. split; reflexivity. Qed.
 Print Assumptions C01_example.
+
+(* the fuel is a proof device only: any fuel at least as large as the model's own gives the very same outcome, so nothing about
+   the result depends on the particular bound 4*|tokens|+16 *)
+Theorem C01_fuel_irrelevant : forall tbl tm ts F, tm <> TmFuel -> (parse_fuel ts <= F)%nat ->
+  parse_tokens_with tbl tm F ts = parse_tokens tbl tm ts.
+Proof. intros tbl tm ts F H L. exact (fuel_irrelevant tbl tm H ts F L). Qed.
+Print Assumptions C01_fuel_irrelevant.
